@@ -30,6 +30,11 @@ type RunnableProcessor struct {
 	*Instance
 	proc sdk.Processor
 	cond *processorCondition
+	// settings is the instance's configuration at the time the runnable
+	// processor was built. The plugin and the condition are fixed at that
+	// point as well; Open must not pick up a later update of the instance
+	// (e.g. a live apply that is subsequently rolled back).
+	settings map[string]string
 }
 
 func newRunnableProcessor(
@@ -41,6 +46,7 @@ func newRunnableProcessor(
 		Instance: i,
 		proc:     proc,
 		cond:     cond,
+		settings: maps.Clone(i.Config.Settings),
 	}
 }
 
@@ -51,7 +57,7 @@ func (p *RunnableProcessor) Open(ctx context.Context) error {
 	// its declared parameters does not reject the operator's egress opt-in as an
 	// "unrecognized parameter". The guest must never see host-reserved config
 	// (design: 20260726-wasm-host-egress-capability.md).
-	settings := maps.Clone(p.Config.Settings)
+	settings := maps.Clone(p.settings)
 	egress.StripReservedKeys(settings)
 
 	err := p.proc.Configure(ctx, settings)
